@@ -307,6 +307,16 @@ impl<'a> Ent<'a> {
         if !self.chance(1, 3) {
             return out;
         }
+        // now and then the 8-bit timer is "armed but stopped": enable bits and a counter-clear source in TCR with no
+        // clock selected (so nothing ever counts), flags standing in TCSR. Instruction semantics, exception entry and
+        // charges have nothing to do with it - the registers must come out as they went in.
+        if self.chance(1, 4) {
+            let tcr = self.u8() & 0xf8;
+            let tcsr = (self.pick(&[0xe0u8, 0x40, 0x80, 0x20, 0xc0, 0x00]) | (self.u8() & 0x1f)) as u8;
+            out.push((0xffff80, vec![tcr]));
+            out.push((0xffff82, vec![tcsr]));
+            return out;
+        }
         for _ in 0..1 + self.below(2) {
             let a = loop {
                 let a = if self.chance(1, 2) { 0xfee000 + self.below(0x100) } else { 0xffff20 + self.below(0xca) };
